@@ -7,8 +7,10 @@ use std::cell::Cell;
 pub struct SimAlloc;
 
 thread_local! {
-    static LIVE: Cell<usize> = const { Cell::new(0) };
-    static PEAK: Cell<usize> = const { Cell::new(0) };
+    // signed, relative to the last mark: a thread may free memory another thread allocated (shared frame caches) or
+    // memory allocated before the mark, so the running count can legitimately go below zero
+    static LIVE: Cell<isize> = const { Cell::new(0) };
+    static PEAK: Cell<isize> = const { Cell::new(0) };
     static MAX_SINGLE: Cell<usize> = const { Cell::new(0) };
     static REFUSE_ABOVE: Cell<usize> = const { Cell::new(usize::MAX) };
     static REFUSED: Cell<usize> = const { Cell::new(0) };
@@ -18,7 +20,7 @@ thread_local! {
 #[inline]
 fn on_alloc(size: usize) {
     let _ = LIVE.try_with(|l| {
-        let v = l.get().wrapping_add(size);
+        let v = l.get().wrapping_add(size as isize);
         l.set(v);
         let _ = PEAK.try_with(|p| {
             if v > p.get() {
@@ -35,7 +37,7 @@ fn on_alloc(size: usize) {
 
 #[inline]
 fn on_dealloc(size: usize) {
-    let _ = LIVE.try_with(|l| l.set(l.get().wrapping_sub(size)));
+    let _ = LIVE.try_with(|l| l.set(l.get().wrapping_sub(size as isize)));
 }
 
 #[inline]
@@ -97,21 +99,24 @@ unsafe impl GlobalAlloc for SimAlloc {
     }
 }
 
-/// Reset peak and largest-single to "now"; returns the live byte count at the mark.
+/// Reset the running count, peak and largest-single to "now"; returns the count at the mark (always 0: the counts
+/// are relative to the mark).
 pub fn mark() -> usize {
-    let live = LIVE.with(|l| l.get());
-    PEAK.with(|p| p.set(live));
+    LIVE.with(|l| l.set(0));
+    PEAK.with(|p| p.set(0));
     MAX_SINGLE.with(|m| m.set(0));
     REFUSED.with(|r| r.set(0));
     LARGEST_REFUSED.with(|r| r.set(0));
-    live
+    0
 }
 
+/// net bytes allocated by this thread since the mark (0 when it freed more than it allocated)
 pub fn live() -> usize {
-    LIVE.with(|l| l.get())
+    LIVE.with(|l| l.get()).max(0) as usize
 }
+/// highest net growth of this thread's heap since the mark
 pub fn peak() -> usize {
-    PEAK.with(|p| p.get())
+    PEAK.with(|p| p.get()).max(0) as usize
 }
 pub fn max_single() -> usize {
     MAX_SINGLE.with(|m| m.get())
